@@ -429,8 +429,8 @@ model: following `next` from `lists[class]` visits exactly `glist`, following `n
 visits exactly `plist` with `lastPage[class]` its last element, every `prev`/`prevInPage`/`header.prev` is
 the predecessor (nil for the first node).  The link writes are the ones the Go source
 contains (`Gen.MemClasses.lnk*`, regenerated on every run): the proof needs every back-link write
-(`next.prev = p` in uintptrFreeShared, `next.prev = 0` in the two Malloc pops, the `prev`-direction
-writes of the removals in defragClass) — without one of them this theorem does not compile. -/
+(`next.prev = p` reachable from Free, `next.prev = 0` in the pops reachable from Malloc and from
+DefragAllImproved, the `prev`-direction writes of the removals reachable from DefragAllImproved) — without one of them this theorem does not compile. -/
 theorem rep_inv {V : Type} (ops : List (Op V)) (s : State V) (hr : run init ops = .ok s) : Rep s := by
   suffices H : ∀ (ops : List (Op V)) (s0 s : State V), Inv s0 → Rep s0 →
       foldE step s0 ops = .ok s → Rep s from H ops init s init_inv init_rep hr
@@ -556,9 +556,11 @@ example : Cnt (init : State Nat) := init_cnt
 /-! ### the per-class mutex is the mutex of the class that is edited (checked source fact) -/
 
 /-- Malloc on the shared path locks the mutex OF THE CLASS IT EDITS.  `mallocLockSel` is the index expression
-of the single `a.classMu[…].Lock()` in Malloc, `mallocEditSel` the index expression of every per-class slice
-access of Malloc and of the methods it calls (linkSharedPage, uintptrMallocShared), both regenerated from
-malloc.go on every run; `mallocLockBrackets` says all those accesses lie between Lock() and Unlock().  Both
+of the `a.classMu[…].Lock()` reached from Malloc, `mallocEditSel` the index expression of every per-class slice
+access of Malloc and of the package functions it calls (calls are followed, whatever the helpers are named), both
+regenerated from the source on every run in the name-free normal form of go/cmd/gen_c20/canon.go;
+`mallocLockBrackets` says that on every control path the mutex is locked at most once, all those accesses happen
+while it is held, and Malloc is left with the mutex released.  Both
 terms denote the same class c, and c is exactly the class on which the model's Malloc step operates
 (`allocLive … c`), so treating the call as one atomic step of class c (as `alloc_inv` and every op-sequence
 theorem of this file does) is justified by the source, not by prose. -/
@@ -571,8 +573,9 @@ theorem malloc_locks_own_class {V : Type} (s : State V) (size : Nat) (h : size +
 
 /-- Free of a live shared allocation locks the mutex OF THE CLASS IT EDITS.  `freeLockSel` is the index
 expression of the `a.classMu[…].Lock()` in Free, `freeEditSel` the index expression of every per-class slice
-access of uintptrFreeShared (regenerated from free.go on every run), `freeLockBrackets` says the call of
-uintptrFreeShared lies between Lock() and Unlock().  In every reachable state (`Inv`) both terms denote the
+access reachable from Free (calls followed; regenerated from the source on every run), `freeLockBrackets` says
+that on every control path the mutex is locked at most once, all those accesses happen while it is held, and
+Free is left with the mutex released.  In every reachable state (`Inv`) both terms denote the
 class byte `h.cls` of the header of the page holding the slot; the model's Free step is `freeSlot … h`, which
 edits the lists and counters of class `h.cls` and leaves every other class's state alone.  The proof accepts
 the two selection terms known to be right (the page header's class byte, or `getSizeClass(Cap + sliceHdrLen)`
